@@ -59,6 +59,16 @@ def run(chk):
                          {"X": hexlist(Xs), "shape": [N, D], "cov": hexlist(np.cov(Yp.T)), "pinv": True})
             elif not np.allclose(np.asarray(wp.weights), Wi, rtol=1e-5, atol=1e-9 * conds * np.abs(Wi).max()):
                 chk.fail("Whitening(pinv=True) differs from Whitening() on full-rank data", {"X": hexlist(Xs), "shape": [N, D], "pinv": True})
+        if i % 5 == 3:
+            for lname, Xl in gen.layouts(X):
+                try:
+                    Wl = np.asarray(Whitening().fit(Xl).weights)
+                except Exception as e:
+                    chk.fail("Whitening.fit on a %s input raises %r" % (lname, e), dict(ctx, layout=lname))
+                    continue
+                chk.count(1, key=("layout", lname))
+                if not np.allclose(Wl, W, rtol=1e-9, atol=max(1e-12, tol) * np.abs(W).max()):
+                    chk.fail("Whitening differs for the same values given as %s" % lname, dict(ctx, layout=lname))
         parts = gen.random_composition(r, N, 3)
         wd = Whitening().fit(da.from_array(X, chunks=(tuple(parts), (D,))))
         Wd, mud = np.asarray(wd.weights), np.asarray(wd.input_subtract)
@@ -107,6 +117,26 @@ def run(chk):
             chk.fail("within-class scatter of the transformed data / K is not the identity (%s labels)" % kind, dict(ctxc, scatter=hexlist(Sw / K)))
         if not np.allclose(Wc, ref, rtol=1e-8, atol=max(1e-9, tolc) * np.abs(ref).max()):
             chk.fail("WCCN projection depends on the label values (%s labels vs 0..K-1 on the same partition)" % kind, ctxc)
+        # the pseudo-inverse variant on full-rank data is the same projection (K >= 2 classes included)
+        if i % 3 == 2:
+            try:
+                Wpi = np.asarray(WCCN(pinv=True).fit(Xc, y).weights)
+                chk.count(1, key=("wccn-pinv", K))
+                if not np.allclose(Wpi, Wc, rtol=1e-6, atol=max(1e-9, tolc) * np.abs(Wc).max()):
+                    chk.fail("WCCN(pinv=True) differs from WCCN() on full-rank data (K = %d classes)" % K, dict(ctxc, pinv=True, got=hexlist(Wpi), want=hexlist(Wc)))
+            except Exception as e:
+                chk.fail("WCCN(pinv=True).fit raises %r" % (e,), dict(ctxc, pinv=True))
+        # the labels as another kind of sequence / integer type
+        if i % 4 == 1:
+            for lname, yl in (("list", [int(q) for q in y]), ("tuple", tuple(int(q) for q in y)), ("int8", y.astype(np.int8)), ("int32", y.astype(np.int32))):
+                try:
+                    Wl = np.asarray(WCCN().fit(Xc, yl).weights)
+                except Exception as e:
+                    chk.fail("WCCN.fit with labels given as %s raises %r" % (lname, e), dict(ctxc, labels_as=lname))
+                    continue
+                chk.count(1, key=("label-container", lname))
+                if not np.allclose(Wl, Wc, rtol=1e-9, atol=max(1e-12, tolc) * np.abs(Wc).max()):
+                    chk.fail("WCCN differs when the same labels are given as %s" % lname, dict(ctxc, labels_as=lname))
         # sample order
         p2 = g.permutation(len(y))
         Wp = np.asarray(WCCN().fit(Xc[p2], y[p2]).weights)
